@@ -104,6 +104,7 @@ fn main() {
             "fmv" => periph::run_fmv_case(&case),
             "pdf" => periph::run_pdf_case(&case),
             "canary" => app::run_canary_case(&case),
+            "clock" => json!({"today_local": acb::util::date::today_local().to_string()}),
             _ => json!({"harness_error": format!("unknown mode {mode}")}),
         });
         res["us"] = json!(t0.elapsed().as_micros() as u64);
